@@ -162,6 +162,7 @@ def showRes : Res → String
   | .err .fuel _ => "FUEL"
   | .err .ghost _ => "GHOST"
   | .err .guard _ => "GUARD"
+  | .err .abort _ => "ABORTED"
 
 def bigFuel : Nat := 1000000000000
 
